@@ -1,4 +1,5 @@
 """Check runner for C11 (structured persistence and the lazy-lattice flag)."""
+import common
 import run_trace
 
 
@@ -15,6 +16,15 @@ def run(prop, tier, seed, replay=None):
     jobs = [dict(name='persist', script='rec_persist_worker.py', args=['--tier', tier], module='TracePersist',
                  cfg='TracePersist.cfg', shards=16 if tier == 'quick' else 48)]
     design = [('Theorems', f'MC_Theorems_{tier}.cfg')]
+    # spec -> code: sessions of several handles chosen by TLC's simulator on SessionSys.tla; the lazy flag of every
+    # live handle is observed after every step and compared by TLC with the model (TraceSession.tla)
+    jobs.append(dict(name='session-flags', script='rec_session_worker.py',
+                     args=['--prop', prop, '--tier', tier, '--emit', 'flags', '--cases', '{work}/sessions.jsonl'],
+                     module='TraceSession', cfg='TraceSession.cfg', shards=4 if tier == 'quick' else 16))
+
+    def prepare(work):
+        path, st, tr, info = common.session_hists(work, tier, seed)
+        return st, tr, info
     rule = ('one behaviour = one context through the persistence life cycle: todict with ignore_lattice in '
             '{None, True, False} before and after the lattice is computed, fromdict/fromjson (str path, PathLike, file '
             'object) with ignore/require/raw flags, randomly permuted documents with raw=True, python-literal '
@@ -23,7 +33,7 @@ def run(prop, tier, seed, replay=None):
             'observation with a context recomputed from scratch and (small lattices) with LatList0(LatticeOf(K)). '
             'Non-trivial: tables with at least one cross and one blank.')
     return run_trace.run(prop, tier, seed, jobs, own=('C11.',), design=design, replay=replay, rule=rule,
-                         signature=signature,
+                         signature=signature, prepare=prepare,
                          assumptions=['TLC evaluates Documents.tla / LatticeOf.tla as written',
                                       'the lazy flag is observed through todict(ignore_lattice=None)',
                                       'pickle byte streams are opaque; observations are compared as SHA-1 digests of '
